@@ -4,7 +4,9 @@ import (
 	"encoding/json"
 	"fmt"
 	"math"
+	"regexp"
 	"strconv"
+	"strings"
 	"time"
 
 	"github.com/enbility/spine-go/model"
@@ -18,6 +20,12 @@ import (
 // integers) and GetValue() equals v at the declared precision; random floats below 10^14 come back
 // within 0.0001; durations n·100ms and instants with whole seconds round-trip exactly; a relative end
 // time of a time period is read back to the second.
+//
+// The textual forms are judged by the harness itself, not only by the library's own parser: a date-time text must be
+// an xs:dateTime WITH a zone designator that denotes the instant (c19ParseXsDateTime), a duration text must be in the
+// lexical space of xs:duration (PnYnMnDTnHnMnS, no week designator) and denote the duration when evaluated with the
+// harness's arithmetic (c19ParseXsDuration); hand-written and generated non-canonical xs:duration spellings are read
+// through the library's parsers with expectations computed by the harness (part "texts").
 
 func init() {
 	const block = 20000
@@ -26,11 +34,16 @@ func init() {
 		Floor: 20,
 		Rule: "deterministic blocks of inputs per part: decimals k*10^-d (dense |k|<=200000 per d, thorough adds strided |k|<=5*10^7), random finite floats over 28 decades below 10^14, " +
 			"durations n*100ms (dense to 5.5h plus log-uniform to 200 years, both signs, through DurationType and AbsoluteOrRelativeTimeType), instants with whole seconds in years 1-9999 (a fifth in non-UTC zones), " +
-			"time periods with a relative end time through JSON. A case is one block; it is non-trivial if at least 1000 conversions were compared; distinct = distinct (part, digits/decade/sign class) descriptors.",
+			"explicit boundary durations (every whole day to 3300 d, every whole hour to 3300 h, 7/30/365-day multiples to 200 y, each +-100 ms, both signs), " +
+			"a fixed table of hand-written xs:duration texts plus generated non-canonical spellings (seconds only, minutes+seconds, unnormalised fields, zero fields, leading zeros) through DurationType, AbsoluteOrRelativeTimeType and {\"endTime\":...} JSON, " +
+			"time periods with a relative end time of either sign through JSON, a sample of them read again after >= 1.5 s. A case is one block; it is non-trivial if at least 1000 conversions were compared; distinct = distinct (part, digits/decade/sign class) descriptors.",
 		Assumptions: []string{
-			"'the same number' for a decimal with up to four fractional digits is judged at the declared precision (round(x*10^4)); bitwise equality of the doubles is recorded, not demanded",
-			"a relative end time moves with the wall clock: |delta| <= 1s is accepted and a case that straddles a second boundary is repeated once",
-			"durations >= 3277 days are the known-finding class D27 (years/months re-expressed with average lengths); inside the class only a 48h bound is asserted",
+			"'the same number' for a decimal k*10^-d (d<=4, |k|<=5*10^7) is the double nearest to that decimal, i.e. the input itself: GetValue() must be == v (the 0.0001 tolerance of the statement belongs to its second clause, arbitrary numbers below 10^14); a difference only in the last binary digits gets the signature decimal/not-the-same-double, a difference at the fourth decimal decimal/declared-precision",
+			"a relative end time moves with the wall clock: the remaining duration read back must lie within 1 s of d minus the wall time that passed, bracketed by the harness's own clock readings; a disagreement of wall and monotonic clock over the case makes the delayed read inconclusive",
+			"the SPINE textual form of a duration is an xs:duration (PnYnMnDTnHnMnS: no week designator, 'T' only before at least one time field); a text that uses years or months has no decided length and does not denote a duration below 3277 days",
+			"the SPINE textual form of an instant is an xs:dateTime with a zone designator (Z or +-hh:mm); a text without one does not denote an instant",
+			"the value of P1M / P1Y (calendar units) is not decided by the statement: observed, not judged",
+			"durations >= 3277 days are the known-finding class D27; the signature duration/>=3277d/imprecise is given ONLY to the deviation recorded at design time (minutes and seconds dropped, whole days re-expressed as floor(days/365.2425) years, floor(days/30.4369)-12*years months and the truncated rest, read back with 365.2425 d/year and a twelfth of that per month, week designator for rest days that are a multiple of 7); any other deviation in that range gets its own signature",
 		},
 		Parts: []rig.Part{
 			{Name: "decimals", Cases: func(t rig.Tier) int {
@@ -41,7 +54,8 @@ func init() {
 				return n
 			}, Run: c19Decimals, Procs: 1},
 			{Name: "floats", Cases: func(t rig.Tier) int { return map[rig.Tier]int{rig.Quick: 12, rig.Thorough: 250}[t] }, Run: c19Floats, Procs: 1},
-			{Name: "durations", Cases: func(t rig.Tier) int { return map[rig.Tier]int{rig.Quick: 30, rig.Thorough: 120}[t] }, Run: c19Durations, Procs: 1},
+			{Name: "durations", Cases: func(t rig.Tier) int { return map[rig.Tier]int{rig.Quick: 33, rig.Thorough: 123}[t] }, Run: c19Durations, Procs: 1},
+			{Name: "texts", Cases: func(t rig.Tier) int { return map[rig.Tier]int{rig.Quick: 4, rig.Thorough: 40}[t] }, Run: c19Texts, Procs: 1},
 			{Name: "instants", Cases: func(t rig.Tier) int { return map[rig.Tier]int{rig.Quick: 10, rig.Thorough: 100}[t] }, Run: c19Instants, Procs: 1},
 			{Name: "periods", Cases: func(t rig.Tier) int { return map[rig.Tier]int{rig.Quick: 4, rig.Thorough: 40}[t] }, Run: c19Periods, Procs: 1},
 		},
@@ -72,7 +86,10 @@ func c19CheckDecimal(c *rig.Ctx, k int64, d int) {
 		c.Violate("decimal/declared-precision", "v=%s (k=%d d=%d): GetValue()=%s differs at the fourth decimal", strconv.FormatFloat(v, 'f', -1, 64), k, d, strconv.FormatFloat(g, 'f', -1, 64))
 	}
 	if g != v {
+		// "returns the same number": v is the double nearest to k*10^-d, and so must be what comes back
 		c.Count("decimals_bitwise_differing", 1)
+		c.Violate("decimal/not-the-same-double", "v=%s (k=%d d=%d): number=%d scale=%d, GetValue()=%s is another number (bits %016x, want %016x)",
+			strconv.FormatFloat(v, 'g', -1, 64), k, d, num, scale, strconv.FormatFloat(g, 'g', -1, 64), math.Float64bits(g), math.Float64bits(v))
 	}
 }
 
@@ -161,29 +178,237 @@ func deref[T any](p *T) any {
 
 const d27Class = 3277 * 24 * time.Hour
 
+// ---- harness-side reading of duration texts ---------------------------------------------------------------
+//
+// c19ParseDuration accepts the ISO-8601 designator form with integer fields and an optional decimal fraction on the
+// seconds: [-]P[nY][nM][nW][nD][T[nH][nM][n[.f]S]]. The lexical space of xs:duration (the SPINE DurationType) is the
+// subset without the week designator; p.weeks tells which of the two a text is in. It is independent of the library and
+// of the period package.
+
+type c19Dur struct {
+	neg                   bool
+	y, mo, w, d, h, mi, s int64
+	fracNs                int64 // fraction of the seconds field, in ns
+	weeks                 bool  // a W designator occurred: ISO 8601, but not xs:duration
+}
+
+func c19ParseDuration(text string) (p c19Dur, ok bool) {
+	s := text
+	if strings.HasPrefix(s, "-") {
+		p.neg = true
+		s = s[1:]
+	}
+	if !strings.HasPrefix(s, "P") {
+		return p, false
+	}
+	s = s[1:]
+	inTime, order, fields, timeFields := false, -1, 0, 0
+	for len(s) > 0 {
+		if s[0] == 'T' {
+			if inTime {
+				return p, false
+			}
+			inTime, order = true, -1
+			s = s[1:]
+			continue
+		}
+		i := 0
+		for i < len(s) && s[i] >= '0' && s[i] <= '9' {
+			i++
+		}
+		if i == 0 || i > 10 {
+			return p, false
+		}
+		n, _ := strconv.ParseInt(s[:i], 10, 64)
+		s = s[i:]
+		frac := ""
+		if len(s) > 0 && s[0] == '.' {
+			j := 1
+			for j < len(s) && s[j] >= '0' && s[j] <= '9' {
+				j++
+			}
+			if j == 1 || j > 10 {
+				return p, false
+			}
+			frac, s = s[1:j], s[j:]
+		}
+		if len(s) == 0 {
+			return p, false
+		}
+		des := s[0]
+		s = s[1:]
+		set := "YMWD"
+		if inTime {
+			set = "HMS"
+		}
+		k := strings.IndexByte(set, des)
+		if k <= order { // unknown designator, repeated or out of order
+			return p, false
+		}
+		order = k
+		if frac != "" && !(inTime && des == 'S') {
+			return p, false
+		}
+		fields++
+		switch {
+		case !inTime && des == 'Y':
+			p.y = n
+		case !inTime && des == 'M':
+			p.mo = n
+		case !inTime && des == 'W':
+			p.w, p.weeks = n, true
+		case !inTime && des == 'D':
+			p.d = n
+		case des == 'H':
+			p.h = n
+			timeFields++
+		case des == 'M':
+			p.mi = n
+			timeFields++
+		case des == 'S':
+			p.s = n
+			timeFields++
+			for len(frac) < 9 {
+				frac += "0"
+			}
+			p.fracNs, _ = strconv.ParseInt(frac, 10, 64)
+		}
+	}
+	if fields == 0 || (inTime && timeFields == 0) {
+		return p, false
+	}
+	return p, true
+}
+
+// value evaluates the text with the harness's arithmetic: 24 h days, weeks of 7 days. Years and months have no decided
+// length: with avg=false a text that uses them is "undecided"; with avg=true they are taken as 365.2425 days and a
+// twelfth of that (31 556 952 s and 2 629 746 s) - used only to recognise the known D27 deviation.
+func (p c19Dur) value(avg bool) (v time.Duration, decided bool) {
+	if (p.y != 0 || p.mo != 0) && !avg {
+		return 0, false
+	}
+	secs := p.y*31556952 + p.mo*2629746 + (p.w*7+p.d)*86400 + p.h*3600 + p.mi*60 + p.s
+	if secs < 0 || secs > 9000000000 { // beyond time.Duration
+		return 0, false
+	}
+	v = time.Duration(secs)*time.Second + time.Duration(p.fracNs)
+	if p.neg {
+		v = -v
+	}
+	return v, true
+}
+
+// c19JudgeDurationText judges the text the library produced for d (|d| below the D27 class): it must be an xs:duration
+// and denote d. sigPrefix is "duration" or "period".
+func c19JudgeDurationText(c *rig.Ctx, sigPrefix, kind, text string, lo, hi time.Duration) {
+	c.Count("duration_texts_judged_by_the_harness", 1)
+	p, ok := c19ParseDuration(text)
+	if !ok {
+		c.Violate(sigPrefix+"/text/not-xs:duration", "%s: the text %q for a duration in [%v, %v] is not in the lexical space of xs:duration (PnYnMnDTnHnMnS)", kind, text, lo, hi)
+		return
+	}
+	if p.weeks {
+		c.Violate(sigPrefix+"/text/week-designator", "%s: the text %q for a duration in [%v, %v] uses the week designator, which ISO 8601 knows and xs:duration (the SPINE DurationType) does not", kind, text, lo, hi)
+	}
+	v, decided := p.value(false)
+	if !decided {
+		c.Violate(sigPrefix+"/text/calendar-units", "%s: the text %q for a duration in [%v, %v] uses years or months, whose length is not decided", kind, text, lo, hi)
+		return
+	}
+	if v < lo || v > hi {
+		c.Violate(sigPrefix+"/text/denotes-other-duration", "%s: the text %q denotes %v, want a duration in [%v, %v]", kind, text, v, lo, hi)
+	}
+}
+
+// c19D27Known says whether (text, back) is exactly the deviation recorded as D27 for d (|d| >= 3277 days), and if not,
+// what differs. The model is the recorded behaviour: hours kept, minutes and seconds dropped, whole days re-expressed
+// with average year and month lengths, the rest truncated to whole days.
+func c19D27Known(d time.Duration, text string, back time.Duration) (known bool, sub, why string) {
+	p, ok := c19ParseDuration(text)
+	if !ok {
+		return false, "text-not-a-duration", "the text is not a duration text"
+	}
+	abs := d
+	if abs < 0 {
+		abs = -abs
+	}
+	totalHours := int64(abs / time.Hour)
+	totalDays := totalHours / 24
+	years := totalDays * 10000 / 3652425
+	months := totalDays*10000/304369 - 12*years
+	rest := (totalDays*10000 - 304369*months - 3652425*years) / 10000
+	hours := totalHours - 24*totalDays
+	var diffs []string
+	if p.neg != (d < 0) {
+		diffs = append(diffs, "sign")
+	}
+	if p.y != years {
+		diffs = append(diffs, fmt.Sprintf("years %d (known deviation has %d)", p.y, years))
+	}
+	if p.mo != months {
+		diffs = append(diffs, fmt.Sprintf("months %d (known %d)", p.mo, months))
+	}
+	if p.w*7+p.d != rest {
+		diffs = append(diffs, fmt.Sprintf("days %d (known %d)", p.w*7+p.d, rest))
+	}
+	if p.h != hours {
+		diffs = append(diffs, fmt.Sprintf("hours %d (known %d)", p.h, hours))
+	}
+	if p.mi != 0 || p.s != 0 || p.fracNs != 0 {
+		diffs = append(diffs, fmt.Sprintf("minutes/seconds %dM%d.%09dS (known deviation drops them)", p.mi, p.s, p.fracNs))
+	}
+	if len(diffs) > 0 {
+		return false, "text-not-the-known-averaging", "the text differs from the year/month averaging recorded as D27 in: " + strings.Join(diffs, ", ")
+	}
+	v, _ := p.value(true)
+	if back != v {
+		return false, "read-back-differs-from-text", fmt.Sprintf("the text is the known averaging, but it is read back as %v while it evaluates to %v with 365.2425 d/year and a twelfth of that per month", back, v)
+	}
+	return true, "", ""
+}
+
 func c19CheckDuration(c *rig.Ctx, d time.Duration) {
 	c.Count("durations", 1)
+	abs := d
+	if abs < 0 {
+		abs = -abs
+	}
+	malformed := false
 	check := func(kind string, back time.Duration, err error, text string) {
-		abs := d
-		if abs < 0 {
-			abs = -abs
+		if abs < d27Class {
+			c19JudgeDurationText(c, "duration", kind, text, d, d)
+			if err != nil || back != d {
+				c.Violate("duration/round-trip", "%s %v -> %q -> %v err=%v", kind, d, text, back, err)
+			}
+			return
+		}
+		// the class D27
+		if p, ok := c19ParseDuration(text); !ok {
+			// not even a duration text (mixed signs, garbage): neither D27's averaging nor readable by anybody
+			malformed = true
+			c.Violate("duration/>=3277d/text-not-a-duration", "%s %v -> %q, which is not a duration text (read back: %v err=%v)", kind, d, text, back, err)
+			return
+		} else if p.weeks {
+			c.Violate("duration/text/week-designator", "%s: the text %q for %v uses the week designator, which ISO 8601 knows and xs:duration (the SPINE DurationType) does not", kind, text, d)
 		}
 		if err == nil && back == d {
+			c.Count("durations_in_class_>=3277d_exact", 1)
 			return
 		}
-		if abs >= d27Class {
-			diff := back - d
-			if diff < 0 {
-				diff = -diff
-			}
-			if err != nil || diff >= 48*time.Hour {
-				c.Violate("duration/>=3277d/gross", "%s %v -> %q -> %v err=%v (off by %v, in-class bound is 48h)", kind, d, text, back, err, diff)
-			} else {
-				c.Violate("duration/>=3277d/imprecise", "%s %v -> %q -> %v (off by %v)", kind, d, text, back, diff)
-			}
+		diff := back - d
+		if diff < 0 {
+			diff = -diff
+		}
+		if err != nil || diff >= 48*time.Hour {
+			c.Violate("duration/>=3277d/gross", "%s %v -> %q -> %v err=%v (off by %v, in-class bound is 48h)", kind, d, text, back, err, diff)
 			return
 		}
-		c.Violate("duration/round-trip", "%s %v -> %q -> %v err=%v", kind, d, text, back, err)
+		if known, sub, why := c19D27Known(d, text, back); known {
+			c.Count("durations_in_class_>=3277d_with_exactly_the_known_deviation", 1)
+			c.Violate("duration/>=3277d/imprecise", "%s %v -> %q -> %v (off by %v)", kind, d, text, back, diff)
+		} else {
+			c.Violate("duration/>=3277d/"+sub, "%s %v -> %q -> %v (off by %v): %s", kind, d, text, back, diff, why)
+		}
 	}
 	dt := model.NewDurationType(d)
 	back, err := dt.GetTimeDuration()
@@ -191,13 +416,22 @@ func c19CheckDuration(c *rig.Ctx, d time.Duration) {
 	a := model.NewAbsoluteOrRelativeTimeTypeFromDuration(d)
 	back2, err2 := a.GetTimeDuration()
 	check("AbsoluteOrRelativeTimeType", back2, err2, string(*a))
-	if !a.IsRelativeTime() {
+	if !a.IsRelativeTime() && !malformed { // a malformed text is reported as such, once
 		c.Violate("duration/not-relative", "IsRelativeTime() false for %q", string(*a))
 	}
 }
 
 func c19Durations(c *rig.Ctx) {
 	n := 0
+	const tenth = 100 * time.Millisecond
+	// around: d-100ms, d, d+100ms, each with both signs
+	around := func(d time.Duration) {
+		for _, x := range []time.Duration{d - tenth, d, d + tenth} {
+			c19CheckDuration(c, x)
+			c19CheckDuration(c, -x)
+			n += 2
+		}
+	}
 	switch {
 	case c.Index < 20: // dense n <= 200000 (5.5h), 10000 per case, both signs
 		start := int64(c.Index) * 10000
@@ -211,6 +445,33 @@ func c19Durations(c *rig.Ctx) {
 		}
 		c.Shape(fmt.Sprintf("dense block=%d", c.Index))
 		c.Sample(map[string]any{"n_from": start, "n_to": start + 9999, "unit": "100ms"})
+	case c.Index == 20: // every whole day up to 3300 days (covers the 7/30/365-day multiples below the class and the class boundary)
+		for k := int64(1); k <= 3300; k++ {
+			around(time.Duration(k) * 24 * time.Hour)
+		}
+		c.Shape("boundary whole-days<=3300 +-100ms both signs")
+		c.Sample(map[string]any{"whole_days": "1..3300", "each": "-100ms, exact, +100ms, both signs", "includes": "3276d23:59:59.9, 3277d"})
+	case c.Index == 21: // every whole hour up to 3300 hours (the text changes its shape at 3277 h)
+		for k := int64(1); k <= 3300; k++ {
+			around(time.Duration(k) * time.Hour)
+		}
+		for k := int64(1); k <= 600; k++ { // whole minutes
+			around(time.Duration(k) * time.Minute)
+		}
+		c.Shape("boundary whole-hours<=3300, whole-minutes<=600 +-100ms both signs")
+		c.Sample(map[string]any{"whole_hours": "1..3300", "whole_minutes": "1..600", "each": "-100ms, exact, +100ms, both signs", "includes": "3276h59:59.9, 3277h"})
+	case c.Index == 22: // multiples of 7, 30 and 365 days up to 200 years (mostly inside the class D27)
+		for k := int64(1); k <= 200; k++ {
+			around(time.Duration(k) * 365 * 24 * time.Hour)
+		}
+		for k := int64(1); k <= 2400; k += 1 + k/200 {
+			around(time.Duration(k) * 30 * 24 * time.Hour)
+		}
+		for k := int64(1); k <= 10400; k += 1 + k/100 {
+			around(time.Duration(k) * 7 * 24 * time.Hour)
+		}
+		c.Shape("boundary 7/30/365-day multiples to 200y +-100ms both signs")
+		c.Sample(map[string]any{"multiples_of_days": []int{7, 30, 365}, "up_to": "200y", "each": "-100ms, exact, +100ms, both signs"})
 	default: // log-uniform up to 200 years; the class >= 3277 days is D27
 		inClass := 0
 		for i := 0; i < 10000; i++ {
@@ -219,9 +480,6 @@ func c19Durations(c *rig.Ctx) {
 			d := time.Duration(nn) * 100 * time.Millisecond
 			if d >= d27Class {
 				inClass++
-				if i%10 != 0 { // sample the known-finding class sparsely, it is asserted only against the 48h bound
-					continue
-				}
 			}
 			if c.Rand.Intn(2) == 0 {
 				d = -d
@@ -235,6 +493,252 @@ func c19Durations(c *rig.Ctx) {
 	}
 	c.Events(int64(n))
 	c.NonTrivial(n >= 1000)
+}
+
+// ---- hand-written and generated duration texts (what a peer may send) --------------------------------------
+
+// c19TextTable: xs:duration texts as other implementations write them, with the duration they denote. The expectation is
+// written by hand AND recomputed by the harness's evaluator; none of them uses years or months.
+var c19TextTable = []struct {
+	text string
+	want time.Duration
+}{
+	{"PT90M", 90 * time.Minute}, {"PT36H", 36 * time.Hour}, {"P1DT12H", 36 * time.Hour}, {"PT3600S", time.Hour},
+	{"PT0.5S", 500 * time.Millisecond}, {"-PT5M", -5 * time.Minute}, {"P0DT0H0M10S", 10 * time.Second},
+	{"PT0S", 0}, {"P0D", 0}, {"PT86400S", 24 * time.Hour}, {"PT1440M", 24 * time.Hour}, {"PT24H", 24 * time.Hour}, {"P1D", 24 * time.Hour},
+	{"PT100H", 100 * time.Hour}, {"P7D", 7 * 24 * time.Hour}, {"P30D", 30 * 24 * time.Hour}, {"P365D", 365 * 24 * time.Hour}, {"P400D", 400 * 24 * time.Hour},
+	{"PT5000H", 5000 * time.Hour}, {"PT100000M", 100000 * time.Minute}, {"-P1DT2H3M4.5S", -(26*time.Hour + 3*time.Minute + 4500*time.Millisecond)},
+	{"PT00036H", 36 * time.Hour}, {"P0Y0M1DT0H0M0S", 24 * time.Hour}, {"PT10.0S", 10 * time.Second}, {"PT0.50S", 500 * time.Millisecond},
+	{"PT59.9S", 59900 * time.Millisecond}, {"PT60S", time.Minute}, {"PT3276.7S", 3276700 * time.Millisecond}, {"PT3276.8S", 3276800 * time.Millisecond},
+	{"PT32767S", 32767 * time.Second}, {"PT32768S", 32768 * time.Second}, {"PT65536S", 65536 * time.Second}, {"PT6553.6S", 6553600 * time.Millisecond},
+	{"PT3276H59M59.9S", 3277*time.Hour - 100*time.Millisecond}, {"PT3277H", 3277 * time.Hour}, {"P136DT13H", 3277 * time.Hour},
+	{"PT32767M", 32767 * time.Minute}, {"PT32768M", 32768 * time.Minute}, {"PT32767H", 32767 * time.Hour}, {"PT32768H", 32768 * time.Hour},
+	{"PT40000H", 40000 * time.Hour}, {"PT78647H", 78647 * time.Hour}, {"P3276D", 3276 * 24 * time.Hour},
+	{"P3276DT23H59M59.9S", 3277*24*time.Hour - 100*time.Millisecond}, {"P3276DT86399.9S", 3277*24*time.Hour - 100*time.Millisecond},
+	{"PT10000000S", 10000000 * time.Second}, {"PT283115520S", 283115520 * time.Second}, {"PT4718592M", 4718592 * time.Minute},
+	{"P100DT100H100M100S", 100*24*time.Hour + 100*time.Hour + 100*time.Minute + 100*time.Second}, {"-P1000D", -1000 * 24 * time.Hour},
+	{"-PT0.1S", -100 * time.Millisecond}, {"PT1H0.5S", time.Hour + 500*time.Millisecond}, {"P1DT0.1S", 24*time.Hour + 100*time.Millisecond},
+}
+
+// c19Spell renders d (a multiple of 100 ms, |d| below the class) in one of several valid xs:duration spellings that are
+// not the library's own. Returns the style name and the text.
+func c19Spell(c *rig.Ctx, d time.Duration) (style, text string) {
+	neg := d < 0
+	if neg {
+		d = -d
+	}
+	tenths := int64(d / (100 * time.Millisecond))
+	t := tenths % 10
+	secs := tenths / 10
+	pad := func(n int64) string { // sometimes with leading zeros, which xs:duration allows
+		if c.Rand.Intn(6) == 0 {
+			return fmt.Sprintf("%0*d", 2+c.Rand.Intn(4), n)
+		}
+		return strconv.FormatInt(n, 10)
+	}
+	sec := func(n int64) string {
+		switch {
+		case t != 0 && c.Rand.Intn(4) == 0:
+			return pad(n) + fmt.Sprintf(".%d0S", t)
+		case t != 0:
+			return pad(n) + fmt.Sprintf(".%dS", t)
+		case c.Rand.Intn(8) == 0:
+			return pad(n) + ".0S"
+		}
+		return pad(n) + "S"
+	}
+	var b strings.Builder
+	b.WriteString("P")
+	switch c.Rand.Intn(7) {
+	case 0:
+		style = "seconds-only"
+		b.WriteString("T" + sec(secs))
+	case 1:
+		style = "minutes+seconds"
+		b.WriteString("T" + pad(secs/60) + "M" + sec(secs%60))
+	case 2:
+		style = "hours+minutes+seconds"
+		b.WriteString("T" + pad(secs/3600) + "H" + pad(secs%3600/60) + "M" + sec(secs%60))
+	case 3:
+		style = "all-fields-with-zeros"
+		b.WriteString(pad(secs/86400) + "DT" + pad(secs%86400/3600) + "H" + pad(secs%3600/60) + "M" + sec(secs%60))
+	case 4:
+		style = "days+seconds"
+		b.WriteString(pad(secs/86400) + "DT" + sec(secs%86400))
+	case 5:
+		style = "days+hours"
+		if secs%3600 != 0 || t != 0 {
+			style = "days+hours+seconds"
+		}
+		b.WriteString(pad(secs/86400) + "DT" + pad(secs%86400/3600) + "H")
+		if secs%3600 != 0 || t != 0 {
+			b.WriteString(sec(secs % 3600))
+		}
+	default:
+		style = "unnormalised-fields"
+		rest := secs
+		days := int64(0)
+		if rest >= 86400 {
+			days = c.Rand.Int63n(rest/86400 + 1)
+		}
+		rest -= days * 86400
+		hours := int64(0)
+		if rest >= 3600 {
+			hours = c.Rand.Int63n(rest/3600 + 1)
+		}
+		rest -= hours * 3600
+		mins := int64(0)
+		if rest >= 60 {
+			mins = c.Rand.Int63n(rest/60 + 1)
+		}
+		rest -= mins * 60
+		if days > 0 {
+			b.WriteString(pad(days) + "D")
+		}
+		b.WriteString("T")
+		if hours > 0 {
+			b.WriteString(pad(hours) + "H")
+		}
+		if mins > 0 {
+			b.WriteString(pad(mins) + "M")
+		}
+		b.WriteString(sec(rest))
+	}
+	text = b.String()
+	if neg {
+		text = "-" + text
+	}
+	return style, text
+}
+
+// c19CheckText reads one duration text through the three ways a received text is read.
+func c19CheckText(c *rig.Ctx, style, text string, want time.Duration) {
+	c.Count("handwritten_texts", 1)
+	c.Seen("handwritten_text_styles", style)
+	p, ok := c19ParseDuration(text)
+	if v, decided := p.value(false); !ok || p.weeks || !decided || v != want {
+		c.Violate("harness/xs-duration-evaluator", "the harness's evaluator reads %q as %v (ok=%v weeks=%v decided=%v), the expectation is %v", text, v, ok, p.weeks, decided, want)
+		return
+	}
+	dt := model.DurationType(text)
+	if got, err := dt.GetTimeDuration(); err != nil || got != want {
+		c.Violate("text/"+style+"/duration-misread", "DurationType(%q).GetTimeDuration() = %v, err=%v; the text denotes %v", text, got, err, want)
+	}
+	a := model.AbsoluteOrRelativeTimeType(text)
+	if got, err := a.GetTimeDuration(); err != nil || got != want {
+		c.Violate("text/"+style+"/relative-time-misread", "AbsoluteOrRelativeTimeType(%q).GetTimeDuration() = %v, err=%v; the text denotes %v", text, got, err, want)
+	}
+	if !a.IsRelativeTime() {
+		c.Violate("text/"+style+"/not-relative", "AbsoluteOrRelativeTimeType(%q).IsRelativeTime() = false", text)
+	}
+	// as the relative end time of a time period: remaining duration to the second
+	t0 := time.Now()
+	var tp model.TimePeriodType
+	uerr := json.Unmarshal([]byte(`{"endTime":"`+text+`"}`), &tp)
+	got, gerr := tp.GetDuration()
+	el := time.Since(t0)
+	lo, hi := want-time.Second-el, want+time.Second
+	if el >= time.Second {
+		lo -= time.Second
+	}
+	if uerr != nil || gerr != nil || got < lo || got > hi {
+		c.Violate("text/"+style+"/period-misread", `{"endTime":%q} decoded (err=%v) and read with GetDuration() = %v, err=%v; the text denotes %v (accepted [%v, %v], %v passed)`, text, uerr, got, gerr, want, lo, hi, el)
+	}
+}
+
+func c19Texts(c *rig.Ctx) {
+	n := 0
+	if c.Index == 0 {
+		for _, e := range c19TextTable {
+			c19CheckText(c, "table", e.text, e.want)
+			n++
+		}
+		// calendar units: the statement does not decide their length; recorded only
+		for _, text := range []string{"P1M", "P1Y", "P1Y2M3DT4H5M6.7S"} {
+			dt := model.DurationType(text)
+			v, err := dt.GetTimeDuration()
+			c.Seen("calendar_unit_texts_observed_not_judged", fmt.Sprintf("%s -> %v err=%v", text, v, err))
+		}
+	}
+	var ex []string
+	for i := 0; i < 2500; i++ {
+		// log-uniform below the class, a tenth of them whole seconds/minutes/hours/days
+		maxN := float64(d27Class/(100*time.Millisecond)) - 1
+		nn := int64(math.Exp(c.Rand.Float64() * math.Log(maxN)))
+		switch c.Rand.Intn(12) {
+		case 0:
+			nn -= nn % 10
+		case 1:
+			nn -= nn % 600
+		case 2:
+			nn -= nn % 36000
+		case 3:
+			nn -= nn % 864000
+		}
+		d := time.Duration(nn) * 100 * time.Millisecond
+		if c.Rand.Intn(3) == 0 {
+			d = -d
+		}
+		if d == 0 {
+			continue
+		}
+		style, text := c19Spell(c, d)
+		c19CheckText(c, style, text, d)
+		if len(ex) < 8 {
+			ex = append(ex, fmt.Sprintf("%s = %v", text, d))
+		}
+		n++
+	}
+	c.Events(int64(3 * n))
+	c.Shape(fmt.Sprintf("texts block=%d table=%v", c.Index%10, c.Index == 0))
+	c.NonTrivial(n >= 1000)
+	c.Sample(map[string]any{"texts": n, "examples": ex})
+}
+
+// ---- instants ----------------------------------------------------------------------------------------------
+
+var c19XsDateTime = regexp.MustCompile(`^(\d{4})-(\d\d)-(\d\d)T(\d\d):(\d\d):(\d\d)(\.\d{1,9})?(Z|[+-]\d\d:\d\d)?$`)
+
+// c19JudgeInstantText: the text must be an xs:dateTime with a zone designator and denote tm (harness-side reading).
+func c19JudgeInstantText(c *rig.Ctx, kind, text string, tm time.Time) {
+	c.Count("instant_texts_judged_by_the_harness", 1)
+	m := c19XsDateTime.FindStringSubmatch(text)
+	if m == nil {
+		c.Violate("instant/text/not-xs:dateTime", "%s: the text %q for %v is not an xs:dateTime", kind, text, tm.UTC())
+		return
+	}
+	if m[8] == "" {
+		c.Violate("instant/text/no-zone-designator", "%s: the text %q for %v carries no zone designator, so it does not denote an instant (a reader takes it as local time)", kind, text, tm.UTC())
+		return
+	}
+	num := func(s string) int { v, _ := strconv.Atoi(s); return v }
+	y, mo, d, h, mi, s := num(m[1]), num(m[2]), num(m[3]), num(m[4]), num(m[5]), num(m[6])
+	ns := 0
+	if m[7] != "" {
+		f := m[7][1:]
+		for len(f) < 9 {
+			f += "0"
+		}
+		ns = num(f)
+	}
+	off := 0
+	if m[8] != "Z" {
+		off = num(m[8][1:3])*3600 + num(m[8][4:6])*60
+		if m[8][0] == '-' {
+			off = -off
+		}
+		c.Seen("instant_text_zone_forms", "offset")
+	} else {
+		c.Seen("instant_text_zone_forms", "Z")
+	}
+	local := time.Date(y, time.Month(mo), d, h, mi, s, ns, time.UTC)
+	if local.Year() != y || int(local.Month()) != mo || local.Day() != d || local.Hour() != h || local.Minute() != mi || local.Second() != s {
+		c.Violate("instant/text/not-xs:dateTime", "%s: the text %q for %v has a field out of range", kind, text, tm.UTC())
+		return
+	}
+	if got := local.Add(-time.Duration(off) * time.Second); !got.Equal(tm) {
+		c.Violate("instant/text/denotes-other-instant", "%s: the text %q denotes %v, want %v", kind, text, got, tm.UTC())
+	}
 }
 
 func c19Instants(c *rig.Ctx) {
@@ -255,11 +759,13 @@ func c19Instants(c *rig.Ctx) {
 		if a.IsRelativeTime() {
 			c.Violate("instant/taken-as-relative", "%q is reported as relative time", string(*a))
 		}
+		c19JudgeInstantText(c, "AbsoluteOrRelativeTimeType", string(*a), tm)
 		d := model.NewDateTimeTypeFromTime(tm)
 		back2, err := d.GetTime()
 		if err != nil || !back2.Equal(tm) {
 			c.Violate("instant/datetime-round-trip", "DateTimeType %v -> %q -> %v err=%v", tm, string(*d), back2, err)
 		}
+		c19JudgeInstantText(c, "DateTimeType", string(*d), tm)
 		if i == 0 {
 			ex = fmt.Sprintf("%v -> %s", tm, string(*a))
 		}
@@ -272,40 +778,66 @@ func c19Instants(c *rig.Ctx) {
 	c.Sample(map[string]any{"instants": n, "example": ex})
 }
 
+// ---- time periods with a relative end time ---------------------------------------------------------------
+
+// c19PeriodBounds: the remaining duration of a relative end time d, read back after `el` of wall time has passed since the
+// value was built, lies in [d - el - 1s, d + 1s] (every conversion rounds to the second once; a second rounding can only
+// add when at least a second has passed).
+func c19PeriodBounds(d, elMin, elMax time.Duration) (lo, hi time.Duration) {
+	lo, hi = d-elMax-time.Second, d-elMin+time.Second
+	if elMax >= time.Second {
+		lo -= time.Second
+	}
+	return
+}
+
 func c19Periods(c *rig.Ctx) {
 	n := 0
 	var ex string
+	caseStart := time.Now()
+	wallStart := caseStart.Round(0) // wall clock reading without the monotonic part
+	type held struct {
+		d            time.Duration
+		tp           model.TimePeriodType
+		before, done time.Time // monotonic bracket of construction .. decode
+		js           string
+	}
+	var keep []held
 	for i := 0; i < 2000; i++ {
 		d := time.Duration(1+c.Rand.Int63n(3000*24*3600)) * time.Second
-		try := func() (time.Duration, string, error) {
-			tp := model.NewTimePeriodTypeWithRelativeEndTime(d)
-			b, err := json.Marshal(tp)
-			if err != nil {
-				return 0, "", err
-			}
-			var out model.TimePeriodType
-			if err := json.Unmarshal(b, &out); err != nil {
-				return 0, string(b), err
-			}
-			got, err := out.GetDuration()
-			return got, string(b), err
+		if i%3 == 1 { // an end time in the past: the remaining duration is negative
+			d = -d
+			c.Count("periods_with_negative_remaining_duration", 1)
 		}
-		got, js, err := try()
-		diff := got - d
-		if diff < 0 {
-			diff = -diff
-		}
-		if err == nil && diff > time.Second {
-			got, js, err = try() // may have straddled a second boundary
-			diff = got - d
-			if diff < 0 {
-				diff = -diff
+		t0 := time.Now()
+		tp := model.NewTimePeriodTypeWithRelativeEndTime(d)
+		b, err := json.Marshal(tp)
+		js := string(b)
+		var out model.TimePeriodType
+		var got time.Duration
+		if err == nil {
+			if err = json.Unmarshal(b, &out); err == nil {
+				got, err = out.GetDuration()
 			}
 		}
+		t1 := time.Now()
+		lo, hi := c19PeriodBounds(d, 0, t1.Sub(t0))
 		if err != nil {
 			c.Violate("period/json-error", "d=%v json=%s err=%v", d, js, err)
-		} else if diff > time.Second {
-			c.Violate("period/remaining-duration", "d=%v json=%s read back %v", d, js, got)
+		} else if got < lo || got > hi {
+			c.Violate("period/remaining-duration", "d=%v json=%s read back %v (accepted [%v, %v], %v passed)", d, js, got, lo, hi, t1.Sub(t0))
+		}
+		// the text on the wire, read by the harness
+		if err == nil {
+			var wire map[string]string
+			if e := json.Unmarshal(b, &wire); e != nil || wire["endTime"] == "" || len(wire) != 1 {
+				c.Violate("period/text/not-a-relative-end-time", "d=%v: the JSON %s is not {\"endTime\":<text>}", d, js)
+			} else {
+				c19JudgeDurationText(c, "period", "TimePeriodType JSON", wire["endTime"], lo, hi)
+			}
+			if i%50 == 0 {
+				keep = append(keep, held{d: d, tp: out, before: t0, done: t1, js: js})
+			}
 		}
 		if i == 0 {
 			ex = fmt.Sprintf("%v -> %s -> %v", d, js, got)
@@ -342,9 +874,36 @@ func c19Periods(c *rig.Ctx) {
 			}
 		}
 	}
+	// "remaining": a decoded relative end time decreases with the clock. One case in four reads its sample again after
+	// at least 1.5 s (the only sleep of the check, below 2 s).
+	if c.Index%4 == 0 && len(keep) > 0 {
+		if rest := 1500*time.Millisecond - time.Since(caseStart); rest > 0 {
+			time.Sleep(rest)
+		}
+		judged := 0
+		for _, h := range keep {
+			r0 := time.Now()
+			got, err := h.tp.GetDuration()
+			r1 := time.Now()
+			// the wall clock (which the library reads) must have moved like the monotonic one, else nothing can be said
+			if dev := r1.Round(0).Sub(wallStart) - r1.Sub(caseStart); dev > 250*time.Millisecond || dev < -250*time.Millisecond {
+				c.Inconclusive("the wall clock moved %v against the monotonic clock during the case: delayed read of relative end times not judged", dev)
+				break
+			}
+			lo, hi := c19PeriodBounds(h.d, r0.Sub(h.done), r1.Sub(h.before))
+			if err != nil {
+				c.Violate("period/delayed-read-error", "d=%v json=%s: GetDuration() after %v: err=%v", h.d, h.js, r1.Sub(h.before), err)
+			} else if got < lo || got > hi {
+				c.Violate("period/remaining-duration-after-delay", "d=%v json=%s decoded, read again %v..%v later: GetDuration() = %v, the remaining duration is in [%v, %v]", h.d, h.js, r0.Sub(h.done), r1.Sub(h.before), got, lo, hi)
+			}
+			judged++
+		}
+		c.Count("periods_read_again_after_>=1.5s", int64(judged))
+		n += judged
+	}
 	c.Count("periods", int64(n))
 	c.Events(int64(n))
-	c.Shape(fmt.Sprintf("periods block=%d", c.Index%10))
+	c.Shape(fmt.Sprintf("periods block=%d delayed=%v", c.Index%10, c.Index%4 == 0))
 	c.NonTrivial(n >= 1000)
 	c.Sample(map[string]any{"periods": n, "example": ex})
 }
